@@ -6,7 +6,8 @@ seed=/verif/seeded/$1; pid=$2
 wt=/tmp/wt/seedrun-$1-$$
 mkdir -p /tmp/wt
 git -C /repo worktree add -q --detach "$wt" HEAD || exit 2
-( cd "$wt" && git apply "$seed/patch.diff" ) || { echo "SEED $1: patch does not apply"; git -C /repo worktree remove --force "$wt"; exit 2; }
+p="$seed/patch.diff"; [ -f "$seed/patch.rebased.diff" ] && p="$seed/patch.rebased.diff"
+( cd "$wt" && git apply "$p" ) || { echo "SEED $1: patch does not apply"; git -C /repo worktree remove --force "$wt"; exit 2; }
 cd /verif && VERIF_REPO="$wt" VERIF_ONLY="$3" VERIF_NO_EVIDENCE=1 timeout ${SEED_TIMEOUT:-2400} ./check $pid > /tmp/wt/seedrun-$1-$pid.log 2>&1
 n=$(grep -c "^VIOLATION" /tmp/wt/seedrun-$1-$pid.log)
 echo "SEED $1 on $pid: violations=$n; $(grep "^$pid " /tmp/wt/seedrun-$1-$pid.log | cut -c1-160)"
